@@ -19,6 +19,11 @@ type spec struct {
 	HV    int  `json:"hashed_variation"`   // 0 none, 1 +Cc, 2 body text differs, 3 text/html instead of text/plain, 4 subject differs, 5 To address differs
 	Multi bool `json:"multipart"`          // multipart/mixed with a text part and an attachment
 	UV    int  `json:"unhashed_variation"` // 0 none, 1 X-Variant header, 2 Date differs, 3 Message-Id added, 4 text body base64, 5 text body quoted-printable, 6 other multipart boundary (Multi only)
+
+	// Damaged: the text part is declared base64 but its body is not base64 (a truncated / damaged message). APPEND
+	// accepts it, rfc822.GetMessageHash fails on it: such a message cannot be recognised as a duplicate, it must be kept
+	// all the same.
+	Damaged bool `json:"damaged_base64"`
 }
 
 const (
@@ -30,6 +35,10 @@ func (s spec) identity() string {
 	m := ""
 	if s.Multi {
 		m = "/multi"
+	}
+
+	if s.Damaged {
+		m += "/damaged"
 	}
 
 	return fmt.Sprintf("m%d/h%d%s", s.Base, s.HV, m)
@@ -99,6 +108,10 @@ func build(s spec) string {
 		cte, enc = "base64", base64.StdEncoding.EncodeToString([]byte(text))+"\r\n"
 	case 5:
 		cte, enc = "quoted-printable", qp(text)
+	}
+
+	if s.Damaged {
+		cte, enc = "base64", "Ym9keSBvZiA!!! "+marker+" is cut off here\r\n"
 	}
 
 	if !s.Multi {
